@@ -69,7 +69,7 @@ Definition date_pat (b : bytes) : bool :=
   end.
 
 (* uploadReportContents: the last len(DateOnly) bytes of the base name
-   without ".json"; None = the slice expression panics *)
+   without ".json"; None = the name is too short (the report is skipped) *)
 Definition fdate (n : bytes) : option bytes :=
   let b := trim_suffix n sfx_json in
   if (length b <? length c_DateOnly)%nat then None
@@ -89,7 +89,7 @@ Record ucfg := mkCfg {
   u_start : Z * Z;           (* start time: seconds, nanoseconds *)
   u_on : bool;               (* mode "on" (true) or "local" (false) *)
   u_asof : option Z;         (* the mode file's date, seconds; None = absent *)
-  u_dir : bytes              (* path prefix of files in local/ (ends with the separator) *)
+  u_dir : bytes              (* path of local/ (no longer examined: notNeeded looks at base names) *)
 }.
 
 Definition today (c : ucfg) : bytes := fmt_date (fst (u_start c) / 86400).
@@ -161,9 +161,10 @@ Fixpoint take_week (w : bytes) (g : list group) : option (list (bytes * cfile) *
            end
   end.
 
-Definition not_needed (dirp w : bytes) (uploaded : option (list bytes)) (ready : list bytes) : bool :=
+(* notNeeded: the uploaded marker, or a ready file whose (base) name contains the date *)
+Definition not_needed (w : bytes) (uploaded : option (list bytes)) (ready : list bytes) : bool :=
   (match uploaded with Some u => existsb (beq (w ++ sfx_json)) u | None => false end)
-  || existsb (fun f => contains (dirp ++ f) w) ready.
+  || existsb (fun f => contains f w) ready.
 
 Definition has_counts (files : list (bytes * cfile)) : bool :=
   existsb (fun e => match cf_counts (snd e) with [] => false | _ => true end) files.
@@ -272,7 +273,7 @@ Definition upload_body (t : thread) : content :=
 (* a week for which reports() makes no call at all: it is needed, and none of
    its files has a counter (createReport returns its error first) *)
 Definition silent (t : thread) (g : group) : bool :=
-  negb (not_needed (u_dir (t_cfg t)) (fst g) (t_uploaded t) (t_ready t)) && negb (has_counts (snd g)).
+  negb (not_needed (fst g) (t_uploaded t) (t_ready t)) && negb (has_counts (snd g)).
 
 (* ---- server ---- *)
 Inductive outcome := O200 | O4xx | O5xx | ONone.
@@ -368,7 +369,7 @@ Definition decide (f : FS) (o : outcome) (t : thread) : effect * thread :=
       | None => (ENone, advance t)
       | Some ct =>
           match fdate (t_file t) with
-          | None => (ENone, set_pc t Done)             (* slice bounds panic *)
+          | None => (ENone, advance t)                 (* name too short to hold a date: skipped, file stays *)
           | Some d => (ENone, set_buf t ULock d ct)
           end
       end
@@ -414,7 +415,7 @@ Definition step_pick (w : bytes) (t : thread) : thread :=
       | None => t
       | Some (files, rest) =>
           let t1 := set_weeks t rest in
-          if not_needed (u_dir (t_cfg t)) w (t_uploaded t) (t_ready t)
+          if not_needed w (t_uploaded t) (t_ready t)
           then start_del t1 w files (t_ready t)
           else if has_counts files then start_week t1 w files
           else t1
